@@ -12,7 +12,9 @@ written from the property text and speaks only about `T`.
 
 Main theorem: `C07_model_eq_spec`; the clauses of the property follow as corollaries
 (`C07_pass_iff_aligned`, `C07_action_is_published_policy`, `C07_temp_failclosed`,
-`C07_bad_author_never_pass`, …).  The laws are hypotheses: they are evaluated on the real
+`C07_bad_author_never_pass`, …); `C07_answer_timing_irrelevant` / `C07_pipeline_eq_spec` carry it
+through the asynchronous policy lookup of the pipeline (any schedule of DNS answers, any number of
+check blocks).  The laws are hypotheses: they are evaluated on the real
 libraries by the correspondence harness (`C07 laws` op; `C07_lawFailure_sound` says what its `ok`
 means) and a concrete instance is exhibited (`toyLaws`).
 -/
@@ -596,6 +598,65 @@ theorem C07_pct_full_never_skips (P : Prims) (f pd : Str) (r : Record) (rs : Lis
   unfold apply
   rcases hp with h | h <;> simp [h, hv, hn, hnot] <;> cases r.sp <;> rfl
 
+/-! ## the asynchronous hand-off: the decision does not depend on when the DNS answers arrive -/
+
+/-- A lookup under a context that is not cancelled while the message is decided yields what the DNS
+holds, whenever the query is made and whenever the answer arrives. -/
+theorem timedLookup_uncancelled (dns : Str → Lookup) (arrive : Str → Nat) (start : Nat) :
+    timedLookup dns arrive none start = dns := by
+  funext n; simp [timedLookup, aborted]
+
+/-- What `Apply` receives through `fetchCh` is what the synchronous composition computes, for every
+arrival schedule. -/
+theorem C07_fetch_timing_irrelevant (P : Prims) (dns : Str → Lookup) (arrive : Str → Nat)
+    (hdr : List FieldParse) :
+    verifierFetchTimed P dns arrive bodyCancelAfter hdr = verifierFetch P dns hdr := by
+  unfold verifierFetchTimed verifierFetch fetchRecordTimed fetchRecord bodyCancelAfter
+  simp only [timedLookup_uncancelled]
+
+/-- **Timing.**  For every number of check blocks, every distribution of the authentication results
+over them and every schedule of DNS answers (before, during or after the body checks of any block,
+after all of them): the reply of the pipeline is the one the synchronous verifier gives for the
+merged results — the lookup result is what the DNS holds, whatever the timing. -/
+theorem C07_answer_timing_irrelevant (P : Prims) (dns : Str → Lookup) (arrive : Str → Nat)
+    (hdr : List FieldParse) (blocks : List (List AuthRes)) (rnd : Nat) (priorQ : Bool) :
+    pipelineBody P dns arrive hdr blocks rnd priorQ =
+      applyResults priorQ (verify P dns hdr blocks.flatten rnd) := by
+  unfold pipelineBody pipelineBodyWith verify
+  rw [C07_fetch_timing_irrelevant]
+
+/-- Two schedules, same decision. -/
+theorem C07_decision_independent_of_schedule (P : Prims) (dns : Str → Lookup) (a₁ a₂ : Str → Nat)
+    (hdr : List FieldParse) (blocks : List (List AuthRes)) (rnd : Nat) (priorQ : Bool) :
+    pipelineBody P dns a₁ hdr blocks rnd priorQ = pipelineBody P dns a₂ hdr blocks rnd priorQ := by
+  rw [C07_answer_timing_irrelevant, C07_answer_timing_irrelevant]
+
+/-- The main theorem at the pipeline level: for every schedule of DNS answers and every way the
+results are spread over the check blocks, the fate of the message is the specified one. -/
+theorem C07_pipeline_eq_spec {P : Prims} {T : DomainTheory} {WF : Str → Prop} (L : Laws P T WF)
+    (dns : Str → Lookup) (arrive : Str → Nat) (hdr : List FieldParse) (blocks : List (List AuthRes))
+    (rnd : Nat) (priorQ : Bool)
+    (hdns : DnsRespects T dns)
+    (hwf : ∀ d, specAuthor hdr = some d → WF d)
+    (hrs : ∀ x ∈ blocks.flatten, WFRes WF x)
+    (h1 : (blocks.flatten.filter isSpf).length ≤ 1)
+    (hpct : ∀ d r sub, specAuthor hdr = some d → discover T dns d = .found r sub →
+      r.pct = none ∨ r.pct = some 100)
+    (hrnd : rnd < 100) :
+    fateOf (pipelineBody P dns arrive hdr blocks rnd priorQ) =
+      some (expect T dns hdr blocks.flatten priorQ).fate := by
+  rw [C07_answer_timing_irrelevant]
+  exact (C07_model_eq_spec L dns hdr blocks.flatten rnd priorQ hdns hwf hrs h1 hpct hrnd).2
+
+/-- A header without a single author is never refused or flagged by DMARC, at any timing. -/
+theorem C07_bad_author_any_timing (P : Prims) (dns : Str → Lookup) (arrive : Str → Nat)
+    (hdr : List FieldParse) (blocks : List (List AuthRes)) (rnd : Nat) (priorQ : Bool)
+    (h : specAuthor hdr = none) :
+    pipelineBody P dns arrive hdr blocks rnd priorQ = .accept priorQ := by
+  rw [C07_answer_timing_irrelevant]
+  have := (C07_bad_author_never_pass P dns hdr blocks.flatten rnd h).2
+  simp [applyResults, this]
+
 
 /-! ## non-vacuity: a concrete instance of the laws and of every hypothesis
 
@@ -748,6 +809,25 @@ example : (verify toyP toyDns [.addrs [], .addrs [some n_ec]] [.dkim .pass n_ec,
 /-- the `pct` draw matters only for partial percentages -/
 example : (apply toyP (.record n_ec n_ec ⟨.relaxed, .relaxed, .reject, none, some 50⟩) [.dkim .fail n_ec, .spf .fail n_ec n_ec] 51).2 = .none := by decide
 example : (apply toyP (.record n_ec n_ec ⟨.relaxed, .relaxed, .reject, none, some 50⟩) [.dkim .fail n_ec, .spf .fail n_ec n_ec] 50).2 = .reject := by decide
+
+/-- The timing statement is not vacuous: the model of the hand-off IS sensitive to a context that
+is cancelled early.  A message failing `p=reject` whose policy answer arrives while the second
+block's checks run: refused by the code as it is (context of `Body`), … -/
+example : pipelineBody toyP toyDns (fun _ => 2) [.addrs [some n_ec]] [[.dkim .fail n_xc], [.spf .fail n_xc n_xc]] 0 false
+    = .refuse 550 5 7 1 := by decide
+/-- … accepted unflagged when the lookup's context is cancelled once the first block is done (the
+cancelled lookup ends in a non-temporary error: permerror, no policy), … -/
+example : pipelineBodyWith (some 1) toyP toyDns (fun _ => 2) [.addrs [some n_ec]] [[.dkim .fail n_xc], [.spf .fail n_xc n_xc]] 0 false
+    = .accept false := by decide
+/-- … and a subdomain's message escapes the quarantine flag (`sp=quarantine`) when only the answer
+for the organizational domain (the second query) is late. -/
+example : pipelineBodyWith (some 1) toyP toyDns (fun n => if n = n_sec then 0 else 3) [.addrs [some n_sec]] [[.dkim .fail n_xc, .spf .fail n_xc n_xc]] 0 false
+    = .accept false := by decide
+example : pipelineBody toyP toyDns (fun n => if n = n_sec then 0 else 3) [.addrs [some n_sec]] [[.dkim .fail n_xc, .spf .fail n_xc n_xc]] 0 false
+    = .accept true := by decide
+/-- an answer that is there before the early cancellation is used -/
+example : pipelineBodyWith (some 1) toyP toyDns (fun _ => 1) [.addrs [some n_ec]] [[.dkim .fail n_xc], [.spf .fail n_xc n_xc]] 0 false
+    = .refuse 550 5 7 1 := by decide
 
 
 /-! ## the executable law check means what `Laws` says, on the listed names -/
